@@ -3,6 +3,8 @@ package main
 import (
 	"encoding/json"
 	"fmt"
+	appsv1 "k8s.io/api/apps/v1"
+	"k8s.io/apimachinery/pkg/runtime"
 	"math"
 	"os"
 	"strings"
@@ -268,6 +270,49 @@ func c15Snapshots(rep *explore.Report, w *world.World, c c15Case) {
 		{mk(math.MaxInt32, v1.PodRunning, true, "web-old"), mk(math.MaxInt32-1, v1.PodFailed, false, "web-old")},
 		{mk(0, v1.PodPending, false, "web-old"), mk(math.MaxInt32, v1.PodRunning, false, "")},
 	}
+	// revisions in the history whose data was not written by this controller (ControllerRevision data is free-form for
+	// the API server): named by status.currentRevision, by a pod label, or merely listed
+	oddData := []string{`not json`, `{"spec":{"template":"a string"}}`, `{"spec":{"updateStrategy":{"rollingUpdate":{"partition":null}}}}`,
+		`{"spec":{"updateStrategy":{"type":"RollingUpdate","rollingUpdate":null}}}`, `{"spec":{"selector":null,"replicas":null,"revisionHistoryLimit":null}}`,
+		`{"spec":null}`, `null`, `{}`, `{"spec":{"template":{"$patch":"replace"}}}`, `{"spec":{"volumeClaimTemplates":[{"metadata":{"name":"data"}},{"metadata":{"name":"data"}}]}}`}
+	type revPop struct {
+		pods []*v1.Pod
+		data string
+		cur  bool
+	}
+	var rpops []revPop
+	for _, d := range oddData {
+		for _, cur := range []bool{true, false} {
+			rpops = append(rpops, revPop{[]*v1.Pod{mk(0, v1.PodRunning, true, "web-odd"), mk(2, v1.PodFailed, false, "web-odd")}, d, cur})
+		}
+	}
+	for i, rp := range rpops {
+		st := world.NewState()
+		x := set.DeepCopy()
+		if rp.cur {
+			x.Status.CurrentRevision = "web-odd"
+		}
+		st.API.Sets["web"] = x
+		for _, p := range rp.pods {
+			st.API.Pods[p.Name] = p
+		}
+		t := true
+		lbl := map[string]string{"app": "web"}
+		st.API.Revs["web-odd"] = &appsv1.ControllerRevision{ObjectMeta: metav1.ObjectMeta{Name: "web-odd", Namespace: world.NS, UID: "uid-rev-odd", ResourceVersion: "1", Labels: lbl,
+			OwnerReferences: []metav1.OwnerReference{{APIVersion: "apps.pingcap.com/v1", Kind: "StatefulSet", Name: "web", UID: x.UID, Controller: &t, BlockOwnerDeletion: &t}}},
+			Data: runtime.RawExtension{Raw: []byte(rp.data)}, Revision: 1}
+		st.SyncCaches()
+		w.Load(st)
+		rec := w.Reconcile(world.NS+"/web", nil)
+		rep.AddStates(1, 1)
+		rep.Count(st.Key(), true, "snapshot with odd revision data: "+explore.OutcomeSig(rec))
+		if rec.Panic != nil {
+			msg := fmt.Sprintf("%s defaulted=%v, revision population %d (revision data %q, named by status.currentRevision=%v): reconcile panicked: %v", c.Label, c.Defaulted, i, rp.data, rp.cur, rec.Panic)
+			rep.Violation("C15", "panic@"+explore.PanicSite(rec.Stack), msg, func() interface{} {
+				return explore.SnapshotReplay{Kind: "snapshot", Label: c.Label, Key: world.NS + "/web", State: st, Calls: explore.CallStrings(rec), Panic: fmt.Sprint(rec.Panic), Stack: rec.Stack}
+			})
+		}
+	}
 	for i, pop := range pops {
 		st := world.NewState()
 		st.API.Sets["web"] = set
@@ -304,7 +349,7 @@ func init() {
 			sizes = append(sizes, fmt.Sprintf("%s:%d", n, len(dims[n])))
 		}
 		rep.Rule = "manifest dimensions (" + strings.Join(sizes, " x ") + "): full product of the core dimensions replicas x podManagementPolicy x updateStrategy x annotations, times every choice of at most 1 (thorough: 2) of the remaining dimensions away from its first value, plus spec-less objects; each admitted (pruned, defaulted, validated) by a mini structural-schema interpreter reading /repo/manifests/crd.v1.yaml version " + ver +
-			", decoded into the typed object, with and without client-side SetObjectDefaults; each object is driven through a journey of real reconciles (create, steady, template change, failed pod, scale-in at slot 0, deletion; kubelet steps in between) and reconciled against 6 hand-made pod populations (three with pods at ordinals 2^31-1 and 2^31-2); every reconcile must return without panicking; the same oracle runs over the ownership grid of C10/C13 (own / orphan / foreign pods and revisions, deleting and stale sets). Replica counts at the top of the int32 range (2^31-1, with and without delete slots below) are reconciled once each in a child process under an address-space limit, because the controller sizes a slice by the replica count. distinct = distinct start states."
+			", decoded into the typed object, with and without client-side SetObjectDefaults; each object is driven through a journey of real reconciles (create, steady, template change, failed pod, scale-in at slot 0, deletion; kubelet steps in between) and reconciled against 6 hand-made pod populations (three with pods at ordinals 2^31-1 and 2^31-2) and 20 populations holding a revision whose data this controller did not write (not JSON, template of the wrong type, null partition / selector / spec, ...), named by status.currentRevision or only by pod labels; every reconcile must return without panicking; the same oracle runs over the ownership grid of C10/C13 (own / orphan / foreign pods and revisions, deleting and stale sets). Replica counts at the top of the int32 range (2^31-1, with and without delete slots below) are reconciled once each in a child process under an address-space limit, because the controller sizes a slice by the replica count. distinct = distinct start states."
 		rep.Assumptions = []string{"the mini interpreter (type, required, properties, items, minimum, default, x-kubernetes-preserve-unknown-fields) stands in for the apiextensions validator, which cannot be built offline", "only type-correct values are generated for fields the typed client decodes", "replicas / slots near MaxInt32 are excluded (the reconciler allocates a slice of that length)"}
 		deadline := explore.Deadline(100*time.Second, 15*time.Minute)
 		ch := make(chan c15Case, 64)
